@@ -612,7 +612,7 @@ func init() {
 		ID: "C20",
 		Profiles: []*Profile{
 			func() *Profile {
-				p := dataProfile("c20-base", map[string]int{"close": 1, "call": 4, "auth": 1, "httpget": 0, "httppost": 0, "sysreset": 2, "custom": 1, "silent": 0, "qmutate": 0, "qevent": 1})
+				p := dataProfile("c20-base", map[string]int{"close": 1, "call": 14, "auth": 3, "httpget": 0, "httppost": 0, "sysreset": 2, "custom": 1, "silent": 0, "qmutate": 0, "qevent": 1})
 				p.MinOps, p.MaxOps, p.MaxConns, p.Prologue = 3, 12, 3, 50
 				return p
 			}(),
